@@ -20,17 +20,23 @@ vars == <<i>>
 
 Snap == Trace[i]
 
-View(s) ==
-  LET L == 1 .. Len(s.lines) C == 1 .. s.cores IN
+(* lines are identified by their base address; a line that a snapshot does not mention has *)
+(* the default state (Invalid everywhere, not resident, no lock, no request, no command)    *)
+Bases(s) == {s.lines[k].base : k \in 1 .. Len(s.lines)}
+Rec(s, b) == s.lines[CHOOSE k \in 1 .. Len(s.lines) : s.lines[k].base = b]
+ViewOn(s, L) ==
+  LET C == 1 .. s.cores
+      has(b) == b \in Bases(s) IN
   [ cores |-> C, lines |-> L,
-    st |-> [c \in C |-> [l \in L |-> s.lines[l].st[c]]],
-    cnt |-> [c \in C |-> [l \in L |-> s.lines[l].cnt[c]]],
-    dat |-> [c \in C |-> [l \in L |-> s.lines[l].hash[c]]],
-    next |-> [l \in L |-> s.lines[l].next],
-    semr |-> [l \in L |-> s.lines[l].semr], semw |-> [l \in L |-> s.lines[l].semw],
-    busy |-> [c \in C |-> [l \in L |-> s.lines[l].busy[c]]],
-    cmd |-> [c \in C |-> [l \in L |-> s.lines[l].cmd[c]]],
-    mis |-> [c \in C |-> [l \in L |-> s.lines[l].misaligned[c]]] ]
+    st |-> [c \in C |-> [l \in L |-> IF has(l) THEN Rec(s, l).st[c] ELSE 0]],
+    cnt |-> [c \in C |-> [l \in L |-> IF has(l) THEN Rec(s, l).cnt[c] ELSE 0]],
+    dat |-> [c \in C |-> [l \in L |-> IF has(l) THEN Rec(s, l).hash[c] ELSE 0]],
+    next |-> [l \in L |-> IF has(l) THEN Rec(s, l).next ELSE 0],
+    semr |-> [l \in L |-> IF has(l) THEN Rec(s, l).semr ELSE 0], semw |-> [l \in L |-> IF has(l) THEN Rec(s, l).semw ELSE 0],
+    busy |-> [c \in C |-> [l \in L |-> IF has(l) THEN Rec(s, l).busy[c] ELSE FALSE]],
+    cmd |-> [c \in C |-> [l \in L |-> IF has(l) THEN Rec(s, l).cmd[c] ELSE 0]],
+    mis |-> [c \in C |-> [l \in L |-> IF has(l) THEN Rec(s, l).misaligned[c] ELSE FALSE]] ]
+View(s) == ViewOn(s, Bases(s))
 
 Init == i = 1
 Next == i < Len(Trace) /\ i' = i + 1
@@ -45,13 +51,18 @@ SemNonNegative == P!SemNonNegative(View(Snap))
 (* L1 holds at most its capacity, plus the reported victims that are being evicted *)
 Capacity == \A c \in 1 .. Snap.cores : Snap.l1len[c] <= Snap.cap + 1
 
+(* consecutive logged states of one run are related by a legal step (MSIProps!LegalStep): *)
+(* the same action property TLC checks on every transition of the design model           *)
+LegalStep == (i > 1 /\ Trace[i - 1].run = Snap.run) =>
+               LET L == Bases(Trace[i - 1]) \cup Bases(Snap) IN P!LegalStep(ViewOn(Trace[i - 1], L), ViewOn(Snap, L))
+
 (* Report is an always-true invariant: it prints, for every logged implementation state *)
 (* on which some clause is false, the trace line, the run it belongs to and the names  *)
 (* of the false clauses (the harness attributes them to schedules / programs).         *)
 Bad == (IF SWMR THEN {} ELSE {"SWMR"}) \cup (IF SharedClean THEN {} ELSE {"SharedClean"})
        \cup (IF Presence THEN {} ELSE {"Presence"}) \cup (IF NoDuplicate THEN {} ELSE {"NoDuplicate"})
        \cup (IF Aligned THEN {} ELSE {"Aligned"}) \cup (IF SemNonNegative THEN {} ELSE {"SemNonNegative"})
-       \cup (IF Capacity THEN {} ELSE {"Capacity"})
+       \cup (IF Capacity THEN {} ELSE {"Capacity"}) \cup (IF LegalStep THEN {} ELSE {"LegalStep"})
 Report == Bad # {} => PrintT(ToJson([line |-> i, run |-> Snap.run, bad |-> Bad]))
 
 (* every line of the trace was consumed *)
